@@ -26,6 +26,12 @@ func c14AnyEq(a, b any) bool {
 	case int:
 		y, ok := b.(int)
 		return ok && x == y
+	case c14Sum:
+		y, ok := b.(c14Sum)
+		return ok && x.N == y.N
+	case c14Plain:
+		y, ok := b.(c14Plain)
+		return ok && x.V == y.V
 	case map[string]any:
 		y, ok := b.(map[string]any)
 		return ok && c14MapEq(x, y)
@@ -325,4 +331,101 @@ func VerifC14Items() {
 	vassert(err != nil, "lists of different length are rejected with an error")
 	_, err = concatMessageArray([][]*Message{{l2[0]}, l1})
 	vassert(err != nil, "lists of different length are rejected with an error whatever the arrival order")
+}
+
+// generic rules: values of a type without a concat function (at most one non-zero chunk), built-in scalar rule
+// (last chunk wins), a registered custom type, and all of them inside maps with mixed / nil values: total,
+// deterministic, re-chunking invariant
+type c14Sum struct{ N int }
+type c14Plain struct{ V int }
+
+var c14Registered = false
+
+func VerifC14Generic() {
+	if !c14Registered {
+		internal.RegisterStreamChunkConcatFunc(func(xs []c14Sum) (c14Sum, error) {
+			s := 0
+			for _, x := range xs {
+				s += x.N
+			}
+			return c14Sum{s}, nil
+		})
+		c14Registered = true
+	}
+	n := 3
+	// (1) a struct type without a function
+	var xs []c14Plain
+	nonZero := 0
+	last := 0
+	for i := 0; i < n; i++ {
+		x := 0
+		if vchoose("nz", 2) == 1 {
+			x = vsymInt("x")
+			vassume(x != 0)
+			nonZero++
+			last = x
+		}
+		xs = append(xs, c14Plain{x})
+	}
+	all, errAll := internal.ConcatItems(xs)
+	vassert((errAll != nil) == (nonZero > 1), "values without a concat function: an error exactly when more than one chunk is non-zero")
+	if errAll == nil {
+		vassert(all.V == last, "otherwise the single non-zero chunk (or zero)")
+	}
+	for k := 1; k < n; k++ {
+		pre, errPre := internal.ConcatItems(xs[:k])
+		if errPre != nil {
+			vassert(errAll != nil, "a failing prefix makes the whole concatenation fail")
+			continue
+		}
+		two, errTwo := internal.ConcatItems(append([]c14Plain{pre}, xs[k:]...))
+		vassert((errTwo != nil) == (errAll != nil), "plain structs: prefix-then-rest fails in the same cases as all-at-once")
+		vassert(errTwo != nil || two == all, "plain structs: prefix-then-rest gives the same value")
+	}
+	// (2) built-in scalars: the last chunk wins
+	i0, i1, i2 := vsymInt("i0"), vsymInt("i1"), vsymInt("i2")
+	iAll, err := internal.ConcatItems([]int{i0, i1, i2})
+	vassert(err == nil && iAll == i2, "ints: the last chunk wins")
+	// (3) registered custom type, directly and as map values next to strings, ints, plain structs and a nil
+	a, b, c := vsymInt("a"), vsymInt("b"), vsymInt("c")
+	ss := []c14Sum{{a}, {b}, {c}}
+	sAll, err := internal.ConcatItems(ss)
+	vassert(err == nil && sAll.N == a+b+c, "a registered custom type is concatenated by its function over all chunks in order")
+	sPre, _ := internal.ConcatItems(ss[:2])
+	sTwo, err := internal.ConcatItems([]c14Sum{sPre, ss[2]})
+	vassert(err == nil && sTwo == sAll, "custom type: independent of chunk boundaries")
+	s1, s2 := vsymStr("s"), vsymStr("t")
+	kind := vchoose("third", 4)
+	ms := []map[string]any{{"sum": c14Sum{a}, "str": s1, "n": i0, "p": xs[0]}, {"sum": c14Sum{b}, "n": i1, "p": xs[1]}, {"str": s2, "p": xs[2]}}
+	switch kind {
+	case 1:
+		ms[2]["sum"] = c14Sum{c}
+	case 2:
+		ms[2]["sum"] = "not a sum" // mixed dynamic types under one key
+	case 3:
+		ms[2]["sum"] = nil
+	}
+	mAll, mErr := internal.ConcatItems(ms)
+	wantErr := nonZero > 1 || kind >= 2
+	vassert((mErr != nil) == wantErr, "maps: an error exactly when some key cannot be concatenated (mixed types, nil, several non-zero values without a function)")
+	if mErr == nil {
+		wantSum := a + b
+		if kind == 1 {
+			wantSum += c
+		}
+		vassert(mAll["sum"].(c14Sum).N == wantSum && mAll["str"].(string) == s1+s2 && mAll["n"].(int) == i1 && mAll["p"].(c14Plain).V == last,
+			"maps: every key is concatenated by the rule of its value type")
+	}
+	for k := 1; k < n; k++ {
+		pre, errPre := internal.ConcatItems(ms[:k])
+		if errPre != nil {
+			vassert(mErr != nil, "maps: a failing prefix makes the whole concatenation fail")
+			continue
+		}
+		two, errTwo := internal.ConcatItems(append([]map[string]any{pre}, ms[k:]...))
+		vassert((errTwo != nil) == (mErr != nil), "maps: prefix-then-rest fails in the same cases as all-at-once")
+		if errTwo == nil && mErr == nil {
+			vassert(c14MapEq(two, mAll), "maps: prefix-then-rest gives the same map")
+		}
+	}
 }
